@@ -149,8 +149,11 @@ def byte_level(ctx):
                 def unrecoverable(v):
                     if cls[v] in ("missing", "unparseable"):
                         return True
-                    bl = victims[v][1]
-                    return not isinstance(json.loads(bl.decode()), dict)
+                    val_ = json.loads(victims[v][1].decode())
+                    if not isinstance(val_, dict):
+                        return True
+                    # a mapping: the directory would be moved to the id of that content - possible only if that name is free
+                    return ("workspace/%s/" % core.my_id(val_)) in before
                 want_left = sorted(v for v in damaged if unrecoverable(v))
                 if (rres == "ok") != (not want_left) or (isinstance(rres, list) and rres != want_left):
                     ctx.violation("bytes:repair-report", "without a cache repair() returned %s, unrecoverable jobs are %s (%s)" % (rres, [d[:6] for d in want_left], how), rep)
